@@ -9,6 +9,7 @@ from ..core import AnalysisError, norm
 from .. import symx, spec, aud
 from ..aud import REL, W
 from ..symx import Tx, E, I, S, fmt_cond, c_and, c_or, c_not
+from ..canon import expand_locals, record_field_values
 from ..astutil import walk_local, stores, parent, ancestors, attr_stores
 from ..cfg import whole_collection, paths
 
@@ -36,7 +37,7 @@ def card_expr(fn):
 
 def sampling_facts(chk):
     """Locate the constructs of CVR.consistent_sampling by role, not by the spelling of locals (shared with C10)."""
-    fn = chk.fn(REL, "CVR.consistent_sampling")
+    fn = chk.fn(REL, "CVR.consistent_sampling", canonical=True)
     params = [a.arg for a in fn.args.args]
     if not all(p in params for p in ("cvr_list", "contests", "sampled_cvr_indices")):
         raise AnalysisError("consistent_sampling: signature changed")
@@ -307,7 +308,7 @@ def r4(chk, f):
 
 
 def r5(chk):
-    fn = chk.fn(REL, "CVR.assign_sample_nums")
+    fn = chk.fn(REL, "CVR.assign_sample_nums", canonical=True)
     where = W("CVR.assign_sample_nums")
     loops = [l for l in fn.body if isinstance(l, ast.For)]
     ok = False
@@ -338,12 +339,12 @@ def r6(chk):
         if len(loops) == 1:
             l = loops[0]
             iv = norm(l.target.elts[0])
-            so = [(t, v, s) for t, v, s in stores(l) if isinstance(t, ast.Subscript) and norm(t.slice) in ('"selection_order"', "'selection_order'")]
+            so = record_field_values(l, "selection_order")  # (<dict>[<card id>], value, statement), any spelling of the record
             rets = [r for r in walk_local(fn) if isinstance(r, ast.Return) and isinstance(r.value, ast.Tuple)]
             returned = {norm(e) for r in rets for e in r.value.elts}
-            base = so[0][0].value if so else None  # <dict>[<card id>]
-            ok = len(so) == 1 and norm(so[0][1]) == iv and parent(so[0][2]) is l and isinstance(base, ast.Subscript) \
-                and norm(base.value) in returned and isinstance(base.slice, ast.Name)
+            base = so[0][0] if so else None
+            ok = len(so) == 1 and norm(expand_locals(so[0][1], fn, stop=(iv,))) == iv and parent(so[0][2]) is l and isinstance(base, ast.Subscript) \
+                and norm(base.value) in returned
         chk.ob("C07.R6", f"{rel}:{q}", "selection-order-recorded", ok,
                "the position of each card in the drawn sample is recorded as its selection_order", node=fn, strength="N")
     fn = chk.fn(REL, "CVR.prep_comparison_sample")
